@@ -17,7 +17,7 @@ META = {
     "bounds": {"quick": "segments scatter -> X [-> Y] -> gather over map, starmap, accumulate (plain / start / returns_state / "
                         "with_state), buffer, partition, sliding_window, zip, union; 3 inputs, schedules of <= 9 steps over "
                         "{emit (awaiting producer), run oldest / newest runnable task, finish scatter, finish gather}",
-               "thorough": "4 inputs, schedules of <= 12 steps"},
+               "thorough": "4 inputs, schedules of <= 10 steps"},
     "outside": ["real cluster failures", "serialization", "several workers' data locality",
                 "producers that do not await emit (order is then not promised by scatter/gather)"],
     "stubs": ["distributed client -> engine/models/model_dask_client.py", "event loop: engine/vloop.py"],
@@ -226,7 +226,7 @@ KINDS = ["map", "map+map", "acc", "acc-start", "acc-rs", "acc-ws", "map+acc", "m
 
 def obligations(tier):
     q = tier == "quick"
-    steps = 9 if q else 12
+    steps = 9 if q else 10
     obls = []
     for kind in KINDS:
         obls.append({"name": "%s/steps=%d" % (kind, steps), "body": "body", "pre": "pre",
